@@ -59,7 +59,8 @@ def tree_case(draw):
         for _ in range(nreq):
             g = draw(st.integers(0, len(obs) - 1))
             req.append([g, draw(st.integers(1, obs[g]['nf']))])
-    return dict(obs=obs, conv=conv, req=req, config=draw(st.sampled_from(['env', 'env', 'path', 'path-keywords'])), photo=draw(st.booleans()))
+    return dict(obs=obs, conv=conv, req=req, config=draw(st.sampled_from(['env', 'env', 'path', 'path-keywords', 'env-run2d-keyword'])), photo=draw(st.booleans()),
+                run2d=draw(st.sampled_from([RUN2D, RUN2D, 'trunk', '26', 'DR12x', 'master'])))
 
 
 def write_tree(top, case):
@@ -72,7 +73,8 @@ def write_tree(top, case):
         fits.HDUList([fits.PrimaryHDU(), fits.BinTableHDU(pl)]).writeto(os.path.join(top, 'platelist.fits'))
     for o in case['obs']:
         plate, mjd, nf, npix = o['plate'], o['mjd'], o['nf'], o['npix']
-        d = top if case['config'].startswith('path') else os.path.join(top, RUN2D, '%04d' % plate)
+        r2 = case.get('run2d', RUN2D)
+        d = top if case['config'].startswith('path') else os.path.join(top, 'sdss' if r2.isdigit() else 'boss', r2, '%04d' % plate)
         os.makedirs(os.path.join(d, RUN1D), exist_ok=True)
         F = np.arange(1, nf + 1)[:, None]
         P = np.arange(npix)[None, :]
@@ -119,15 +121,28 @@ def tree_body(case):
         req = [[latest[obs[g]['plate']], min(f, obs[latest[obs[g]['plate']]]['nf'])] for g, f in req]
     with tmpdir() as top:
         write_tree(top, case)
-        os.environ.update({'BOSS_SPECTRO_REDUX': top, 'RUN2D': RUN2D, 'RUN1D': RUN1D, 'SPECTRO_MATCH': os.path.join(top, 'match'),
+        r2 = case.get('run2d', RUN2D)
+        # two survey trees side by side: reductions with a numeric tag (SDSS-I/II reruns) under $SPECTRO_REDUX, all others under $BOSS_SPECTRO_REDUX
+        os.makedirs(os.path.join(top, 'boss'), exist_ok=True)
+        os.makedirs(os.path.join(top, 'sdss'), exist_ok=True)
+        os.environ.update({'BOSS_SPECTRO_REDUX': os.path.join(top, 'boss'), 'SPECTRO_REDUX': os.path.join(top, 'sdss'), 'RUN2D': r2, 'RUN1D': RUN1D, 'SPECTRO_MATCH': os.path.join(top, 'match'),
                            'PHOTO_RESOLVE': '/nonexistent/resolve'})
         kw = {}
         if case['config'].startswith('path'):
             kw['path'] = top
+        if case['config'] == 'env-run2d-keyword':
+            # the reduction is named by the run2d= keyword while $RUN2D points at another one, in which every plate has a later
+            # (never to be opened) spPlate file: the keyword decides where the latest MJD is looked up and where the files are read
+            kw['run2d'] = r2
+            os.environ['RUN2D'] = 'decoy9'
+            for o in obs:
+                dd = os.path.join(top, 'boss', 'decoy9', '%04d' % o['plate'])
+                os.makedirs(dd, exist_ok=True)
+                open(os.path.join(dd, 'spPlate-%04d-%05d.fits' % (o['plate'], 58100 + o['plate'] % 50)), 'w').close()
         if case['config'] == 'path-keywords' and conv != 'mjd-omitted':
             # everything handed over explicitly: no reduction version in the environment at all
-            kw.update(run2d=RUN2D, run1d=RUN1D)
-            for k in ('RUN2D', 'RUN1D', 'BOSS_SPECTRO_REDUX'):
+            kw.update(run2d=r2, run1d=RUN1D)
+            for k in ('RUN2D', 'RUN1D', 'BOSS_SPECTRO_REDUX', 'SPECTRO_REDUX'):
                 os.environ.pop(k, None)
         plates = np.array([obs[g]['plate'] for g, f in req], dtype='i4')
         mjds = np.array([obs[g]['mjd'] for g, f in req], dtype='i4')
@@ -195,7 +210,7 @@ def tree_body(case):
 
 
 def tree_classify(case):
-    return ['conv:' + case['conv'], 'config:' + case['config'], 'groups:%d' % min(len(case['obs']), 4), 'photo' if case['photo'] else 'nophoto', 'nreq:%d' % min(len(case['req']) // 4 * 4, 12)]
+    return ['run2d:' + case.get('run2d', RUN2D), 'conv:' + case['conv'], 'config:' + case['config'], 'groups:%d' % min(len(case['obs']), 4), 'photo' if case['photo'] else 'nophoto', 'nreq:%d' % min(len(case['req']) // 4 * 4, 12)]
 
 
 def tree_nontrivial(case, labels):
